@@ -1068,64 +1068,77 @@ func ruleC01(c *Ctx, r *Report) {
 		return nil
 	}
 	// LT edges: `*op == LT` true
-	ltEdges := eqConstEdges(fn, func(v ssa.Value) bool { return true }, ltV)
 	nret := 0
-	for _, ret := range returnsOf(fn) {
-		isNil, known := returnsNilError(ret)
-		if known && !isNil {
-			continue
-		}
-		nret++
-		cons := fmt.Sprintf("route:return#%d", nret)
-		v := stripValue(ret.Results[0])
-		switch {
-		case isCallTo(v, mSub) != nil:
-			r.ok(rule, name, cons, c.Pos(ret.Pos()), "all tables of the rule (no pruning)")
-		default:
-			if sl, ok := v.(*ssa.Slice); ok {
-				if es := variadicElems(sl); len(es) == 1 && isFindIdx(es[0]) {
-					r.ok(rule, name, cons, c.Pos(ret.Pos()), "exactly the table FindTableIndex(v) names")
-					continue
-				}
-			}
-			call, ok := v.(*ssa.Call)
-			if !ok || !callsFunc(&call.Call, makeList) || len(call.Call.Args) != 2 {
-				r.viol(rule, name, cons, c.Pos(ret.Pos()), "the route returned here is neither all tables, the key's own table, nor a makeList range: tables may be dropped without a reason the rule can see")
+	var visitRoute func(fn *ssa.Function, depth int)
+	visitRoute = func(fn *ssa.Function, depth int) {
+		ltEdges := eqConstEdges(fn, func(v ssa.Value) bool { return true }, ltV)
+		for _, ret := range returnsOf(fn) {
+			isNil, known := returnsNilError(ret)
+			if known && !isNil {
 				continue
 			}
-			lo, hi := call.Call.Args[0], call.Call.Args[1]
-			hiBase := plusOne(hi)
+			v := stripValue(ret.Results[0])
+			// `return helper(...)`: the route is computed by an unexported helper of the package (extract-method of a branch)
+			if ex, ok := v.(*ssa.Extract); ok && ex.Index == 0 && depth > 0 {
+				if hc, ok := ex.Tuple.(*ssa.Call); ok {
+					if h := staticCallee(&hc.Call); h != nil && h != fn && h.Pkg == fn.Pkg && len(h.Blocks) > 0 && h != makeList {
+						visitRoute(h, depth-1)
+						continue
+					}
+				}
+			}
+			nret++
+			cons := fmt.Sprintf("route:return#%d", nret)
 			switch {
-			case isCallTo(lo, mFirst) != nil && hiBase != nil:
-				// upper end: the key's table, or the adjusted index on the LT edge only
-				good, why := true, ""
-				for _, l := range phiLeaves(hiBase) {
-					if isFindIdx(l) {
-						continue
-					}
-					if ac, ok := l.(*ssa.Call); ok && callsFunc(&ac.Call, adjust) {
-						if len(ltEdges) == 0 || !edgesDominate(fn, ltEdges, ac.Block()) {
-							good, why = false, "the index is adjusted downwards although the operator is not known to be `<`: for `<=` the table of the key itself is dropped"
-						}
-						if len(ac.Call.Args) != 3 || !isFindIdx(ac.Call.Args[2]) {
-							good, why = false, "adjustShardIndex is not applied to the key's own table index"
-						}
-						continue
-					}
-					good, why = false, "the upper end of the range is not the key's own table index"
-				}
-				if good {
-					r.ok(rule, name, cons, c.Pos(ret.Pos()), "[first .. table of the key], lowered by adjustShardIndex only on the `<` edge")
-				} else {
-					r.viol(rule, name, cons, c.Pos(ret.Pos()), why)
-				}
-			case isFindIdx(stripValue(lo)) && hiBase != nil && isCallTo(hiBase, mLast) != nil:
-				r.ok(rule, name, cons, c.Pos(ret.Pos()), "[table of the key .. last]")
+			case isCallTo(v, mSub) != nil:
+				r.ok(rule, name, cons, c.Pos(ret.Pos()), "all tables of the rule (no pruning)")
 			default:
-				r.viol(rule, name, cons, c.Pos(ret.Pos()), "a range route that does not keep the table of the key itself (expected makeList(first, idx+1) or makeList(idx, last+1))")
+				if sl, ok := v.(*ssa.Slice); ok {
+					if es := variadicElems(sl); len(es) == 1 && isFindIdx(es[0]) {
+						r.ok(rule, name, cons, c.Pos(ret.Pos()), "exactly the table FindTableIndex(v) names")
+						continue
+					}
+				}
+				call, ok := v.(*ssa.Call)
+				if !ok || !callsFunc(&call.Call, makeList) || len(call.Call.Args) != 2 {
+					r.viol(rule, name, cons, c.Pos(ret.Pos()), "the route returned here is neither all tables, the key's own table, nor a makeList range: tables may be dropped without a reason the rule can see")
+					continue
+				}
+				lo, hi := call.Call.Args[0], call.Call.Args[1]
+				hiBase := plusOne(hi)
+				switch {
+				case isCallTo(lo, mFirst) != nil && hiBase != nil:
+					// upper end: the key's table, or the adjusted index on the LT edge only
+					good, why := true, ""
+					for _, l := range phiLeaves(hiBase) {
+						if isFindIdx(l) {
+							continue
+						}
+						if ac, ok := l.(*ssa.Call); ok && callsFunc(&ac.Call, adjust) {
+							if len(ltEdges) == 0 || !edgesDominate(fn, ltEdges, ac.Block()) {
+								good, why = false, "the index is adjusted downwards although the operator is not known to be `<`: for `<=` the table of the key itself is dropped"
+							}
+							if len(ac.Call.Args) != 3 || !isFindIdx(ac.Call.Args[2]) {
+								good, why = false, "adjustShardIndex is not applied to the key's own table index"
+							}
+							continue
+						}
+						good, why = false, "the upper end of the range is not the key's own table index"
+					}
+					if good {
+						r.ok(rule, name, cons, c.Pos(ret.Pos()), "[first .. table of the key], lowered by adjustShardIndex only on the `<` edge")
+					} else {
+						r.viol(rule, name, cons, c.Pos(ret.Pos()), why)
+					}
+				case isFindIdx(stripValue(lo)) && hiBase != nil && isCallTo(hiBase, mLast) != nil:
+					r.ok(rule, name, cons, c.Pos(ret.Pos()), "[table of the key .. last]")
+				default:
+					r.viol(rule, name, cons, c.Pos(ret.Pos()), "a range route that does not keep the table of the key itself (expected makeList(first, idx+1) or makeList(idx, last+1))")
+				}
 			}
 		}
 	}
+	visitRoute(fn, 2)
 	if nret < 6 {
 		r.undecided(rule, name, "route:returns", c.Pos(fn.Pos()), fmt.Sprintf("expected the route function's 7 success returns, found %d", nret))
 	}
@@ -1602,7 +1615,6 @@ func ruleC02(c *Ctx, r *Report) {
 		}
 	}
 }
-
 
 // schemaRewrittenOnPath: path-sensitive search from the edge e. Boolean (and other) phis take the value of the edge they
 // are entered through; an If on a value known that way follows only the matching branch. Succeeds when a path executes a
